@@ -865,22 +865,31 @@ func TestKnownSpuriousReconnect(t *testing.T) {
 	}
 	defer runtime.GOMAXPROCS(runtime.GOMAXPROCS(4))
 	ev.Known(t, "C05-spurious-reconnect", func() *ev.Failure {
-		for attempt := 0; attempt < 60; attempt++ {
+		for attempt := 0; attempt < 400; attempt++ {
 			w := sim.NewWorld()
+			// requests written before the cut wait for their answer on the old connection; they learn about its death only
+			// when the reconnect closes it - and may report that after the (instant) redial has already completed
+			w.Broker.Hook = func(inc *sim.Inc, e *sim.Entry) sim.Verdict {
+				if _, ok := e.Msg.(*message.UpstreamMetadata); ok && inc.Index == 0 {
+					return sim.Handled
+				}
+				return sim.Default
+			}
 			env, err := scn.Start(w, scn.Config{PingMs: 20, PingTimeoutMs: 1500, CtxMs: 2000})
 			if err != nil {
 				w.Dispose()
 				continue
 			}
-			w.CurrentLink().DrainThenSever(20 * time.Millisecond)
 			var wg sync.WaitGroup
-			for i := 0; i < 6; i++ {
+			for i := 0; i < 48; i++ {
 				wg.Add(1)
 				go func(i int) {
 					defer wg.Done()
 					env.Do(1, i, scn.Op{Kind: "meta", CtxMs: 2000})
 				}(i)
 			}
+			time.Sleep(time.Millisecond)
+			w.CurrentLink().DrainThenSever(20 * time.Millisecond)
 			wg.Wait()
 			time.Sleep(5 * time.Millisecond)
 			evs := env.Events.Snapshot()
@@ -888,7 +897,7 @@ func TestKnownSpuriousReconnect(t *testing.T) {
 			sim.Call(5*time.Second, func() { env.Do(9, 0, scn.Op{Kind: "conn-close", CtxMs: 500}) })
 			w.Dispose()
 			if evs.Disconnected > 1 {
-				return ev.Failf("C05.4 connection-events", "one transport failure with 6 requests in flight and an instant redial: %d connections dialled, disconnected handler ran %d times (attempt %d)", links, evs.Disconnected, attempt+1)
+				return ev.Failf("C05.4 connection-events", "one transport failure with 48 requests in flight and an instant redial: %d connections dialled, disconnected handler ran %d times (attempt %d)", links, evs.Disconnected, attempt+1)
 			}
 		}
 		return nil
